@@ -262,6 +262,8 @@ def sib_export(ctx: Ctx) -> List[Ob]:
             O(f, "mermaid: the root is node 0", bool(find_under(ctx, f, f"{tab}[{kn}(node)] = 0", [("add_root", True)])))
     f = m.func("_node_to_mermaid_flowchart_iter")
     em = [g for g in f.nested if g.name == "edge_mapper" and has("getattr($t, 'kind', None)", g.node)]
+    # (the *default* mapper is the one that uses the default templates; a template mapper may read the kind as well)
+    em = [g for g in em if any(isinstance(x, ast.Name) and x.id == "DEFAULT_EDGE_TEMPLATE_TYPED" for x in ast.walk(g.node))] or em
     ok = None
     if em:
         g = em[0]
@@ -739,6 +741,12 @@ def diff(ctx: Ctx) -> List[Ob]:
     # the added / removed id sets are two distinct sets
     sets_ = [n for n in f.body if isinstance(n, ast.Assign) and match("set()", n.value) is not None]
     ok = len(sets_) >= 2 and all(len(n.targets) == 1 for n in sets_)
+    names_ = {norm(t) for n in sets_ for t in n.targets}
+    shared_ = [n for n in ast.walk(f.node) if isinstance(n, ast.Assign) and isinstance(n.value, ast.Name) and n.value.id in names_]
+    if shared_:
+        ok = False  # (the canonical form spells `a = b = set()` as `a = set(); b = a`)
+    elif not ok and len(sets_) == 1 and len(sets_[0].targets) == 1:
+        ok = True  # only the added ids are collected (the removed ones are found through their REMOVED mark): nothing to share
     O(f, "added and removed node ids are collected in two separate sets", ok,
       "`a = b = set()` shares one set: removed nodes are re-classified as if they had been added")
     fcf = m.func("_find_child")
@@ -838,6 +846,20 @@ def diff(ctx: Ctx) -> List[Ob]:
         dep_ = [("" if p_ else "not ") + norm(e_) for c in rc_ for e_, p_ in _pc(ctx, cc_, c) if any(isinstance(x, ast.Name) and x.id == "meta" for x in ast.walk(e_))]
         obs.append(ctx.tri("DIFF", ["C11"], cc_, "_copy_children copies the whole branch (the recursion does not depend on the mark)", None, not dep_,
                            f"recursion under {dep_}: only the marked level and its children are copied, deeper descendants of an added branch are missing"))
+    # every round of compare() scans the second node's children for one-sided (added) ones: no `return` in front of that scan
+    add_loops = [lp_ for lp_ in ast.walk(cmp_.node) if isinstance(lp_, ast.For) and any(isinstance(x, ast.Attribute) and x.attr == "ADDED" for x in ast.walk(lp_))]
+    if add_loops:
+        al_ = add_loops[-1]
+        early_ = [r_ for r_ in ast.walk(cmp_.node) if isinstance(r_, ast.Return) and not any(r_ is x for x in ast.walk(al_)) and not_after(ctx, cmp_, r_, al_)
+                  and not not_after(ctx, cmp_, al_, r_)]
+        if not early_:
+            # (the canonical form turns `if c: return` + loop into `if not c: loop`)
+            gc_ = [(e_, p_) for e_, p_ in _pc(ctx, cmp_, al_) if norm(e_) not in (norm(al_.iter), f"{p1}.children", f"{p1}._children")]
+            if gc_:
+                early_ = [al_]
+        obs.append(ctx.tri("DIFF", ["C11"], cmp_, "the scan for children that only the second tree has is reached in every round of compare()", early_[0] if early_ else None,
+                           not early_, f"compare() returns in front of that scan under {[('' if p_ else 'not ') + norm(e_) for e_, p_ in _pc(ctx, cmp_, early_[0])] if early_ else ''}: "
+                           "children that exist only in the second tree are neither copied nor marked ADDED"))
     fc = [c for c in ast.walk(cmp_.node) if isinstance(c, ast.Call) and norm(c.func) == "_find_child"]
     O(cmp_, "peers of first-tree children are searched among the second node's children", len(fc) == 1 and norm(_res(ctx, cmp_, fc[0], fc[0].args[0])) == f"{p1}.children")
     om = [c for c in ast.walk(cmp_.node) if isinstance(c, ast.Call) and isinstance(c.func, ast.Attribute) and c.func.attr == "set_meta"
